@@ -268,13 +268,13 @@ func flavours() []*flavour {
 	mk := func(label, impl, family, id, kt, vt string, keys []string, kcode []int, kexpr string, vals []string, vcode []int, vexpr string) *flavour {
 		return &flavour{label: label, impl: impl, wrapRec: kt == ss && family != "set", family: family, id: id, kt: kt, vt: vt, keys: keys, nset: 3, kcode: kcode, kexpr: kexpr, vals: vals, vcode: vcode, vexpr: vexpr}
 	}
-	iv, sv := []string{"", "1", "2"}, []string{"", `"x"`, `"yy"`}
+	iv, sv := []string{"", "1", "2"}, []string{"", `""`, `"yy"`} // "" is the zero value of the specialised value type
 	return []*flavour{
 		mk("HashMap[Int,Int]", "HashMapOfValue", "map", "mii", si, si, ik, same, "k", iv, []int{0, 1, 2}, "v"),
 		mk("HashMap[String,Int]", "NativeKeyHashMap", "map", "msi", ss, si, sk, []int{1, 2, 3, 4}, "k.length", iv, []int{0, 1, 2}, "v"),
-		mk("HashMap[String,String]", "NativeHashMap", "map", "mss", ss, ss, sk, []int{1, 2, 3, 4}, "k.length", sv, []int{0, 1, 2}, "v.length"),
+		mk("HashMap[String,String]", "NativeHashMap", "map", "mss", ss, ss, sk, []int{1, 2, 3, 4}, "k.length", sv, []int{0, 0, 2}, "v.length"),
 		mk("HashRecord[Int,Int]", "HashRecordOfValue", "record", "rii", si, si, ik, same, "k", iv, []int{0, 1, 2}, "v"),
-		mk("HashRecord[String,String]", "NativeHashRecord", "record", "rss", ss, ss, sk, []int{1, 2, 3, 4}, "k.length", sv, []int{0, 1, 2}, "v.length"),
+		mk("HashRecord[String,String]", "NativeHashRecord", "record", "rss", ss, ss, sk, []int{1, 2, 3, 4}, "k.length", sv, []int{0, 0, 2}, "v.length"),
 		mk("HashSet[Int]", "HashSetOfValue", "set", "si", si, "", ik, same, "k", nil, nil, ""),
 		mk("HashSet[String]", "NativeHashSet", "set", "ss", ss, "", sk, []int{1, 2, 3, 4}, "k.length", nil, nil, ""),
 	}
@@ -439,6 +439,26 @@ func runElkBatch(r *engine.R, f *flavour, ops []eop, items []elkItem, base int) 
 		fmt.Fprintf(&code, "d%s := %s == %s\nprintln(\"eq=\" + d%s.inspect)\n", x, x, L(f.lit(d)), x)
 		e.lines = append(e.lines, "eq=false")
 		e.kinds = append(e.kinds, "== different content")
+		// same length, one key replaced by an absent key (same value)
+		for _, from := range sortedKeys(m) {
+			to := -1
+			for k := range f.keys {
+				if _, ok := m[k]; !ok {
+					to = k
+					break
+				}
+			}
+			if to >= 0 {
+				d2 := m.clone()
+				d2[to] = d2[from]
+				delete(d2, from)
+				fmt.Fprintf(&code, "g%s := %s == %s\nprintln(\"eq=\" + g%s.inspect)\n", x, x, L(f.lit(d2)), x)
+				e.lines = append(e.lines, "eq=false")
+				e.kinds = append(e.kinds, "== same length, one key differs")
+				e.shared = append(e.shared, 0)
+			}
+			break
+		}
 		e.desc = strings.Join(desc, " ; ")
 		progs = append(progs, elkrun.Item{Code: code.String()})
 		exps = append(exps, e)
